@@ -7,6 +7,7 @@ import (
 	"time"
 
 	"verif.local/h/core"
+	"verif.local/h/impl"
 	r69 "verif.local/h/ref6902"
 	rj "verif.local/h/refjson"
 )
@@ -36,6 +37,10 @@ func seqReplay(mk func(tier string) *seqProp) func(ctx *core.Ctx, c json.RawMess
 		}
 		p.UseDefaults = c.UseDefaults
 		implSet(p, c.Opt)
+		if c.PkgLimit != 0 && c.Lib == "v5" && !c.UseDefaults {
+			impl.SetV5PackageLimit(c.PkgLimit)
+			defer impl.SetV5PackageLimit(0)
+		}
 		r := &seqRun{p: p, ctx: ctx, doc: d, dtxt: c.Doc, ops: ops, opt: c.Opt}
 		r.ref = r69.Apply(d, ops, c.Opt)
 		r.obs = r.exec("")
@@ -104,7 +109,7 @@ func registerSeqMulti(id string, mk func(tier string) []*seqProp, quick, thoroug
 				if p.Legacy {
 					lib = "v4"
 				}
-				if lib == c.Lib && p.UseDefaults == c.UseDefaults {
+				if lib == c.Lib && p.UseDefaults == c.UseDefaults && p.PkgLimit == c.PkgLimit {
 					seqReplay(func(string) *seqProp { return p })(ctx, raw)
 					return
 				}
@@ -298,25 +303,43 @@ func init() {
 		legacy := &seqProp{ID: "C12", Legacy: true, Docs: small, Opts: limOpts, Depth: 2,
 			Alpha: []*AlphaCfg{{Values: vals[:1], ReplValues: vals[:1], Kinds: kinds("copy", "add", "remove"), NoRootAdd: true}, {Kinds: kinds("copy"), NoRootAdd: true}}, Judge: judgeC12Fixed,
 			Rule: "legacy package global AccumulatedCopySizeLimit: every limit 0..N x all sequences <= depth on 2 documents, same oracle (sizes with HTML escaping, which the legacy encoder always applies)"}
+		// per-call options take precedence over the package default: with the default set to 1 byte,
+		// explicit options behave exactly as before (limit 0 = disabled, positive limits as given)
+		override := &seqProp{ID: "C12", PkgLimit: 1, Docs: small, Opts: []r69.Options{{Neg: true, EscapeHTML: true}}, Depth: 2, Alpha: []*AlphaCfg{sa, tail}, Judge: judgeC12,
+			Rule: "v5 per-call option while the package default is 1 byte: explicit ApplyOptions take precedence (limit 0 disables the check; positive limits judged as in the first phase)"}
 		if tier == "thorough" {
 			perCall.Depth, defaults.Depth, legacy.Depth = 3, 3, 3
 			perCall.Alpha = []*AlphaCfg{a, tail, tail}
 		}
-		return []*seqProp{perCall, defaults, legacy}
+		return []*seqProp{perCall, defaults, legacy, override}
 	}, 100*time.Second, 25*time.Minute)
 }
 
 func init() {
 	registerMerge("C02", func(ctx *core.Ctx, tier string) {
 		v1, v2 := famV1(), famV2()
-		ctx.Rep.Rule = "all edges D x P: MergePatch(D,P) vs RFC 7396 pseudo-code on refjson trees. quick: V1xV2, V2xV1, V2-objects x V3-objects (depth-3 recursion through members that change type); patch and document also fed in 3 spelling variants on V1xV1. thorough: V3xV3. " +
+		ctx.Rep.Rule = "all edges D x P: MergePatch(D,P) vs RFC 7396 pseudo-code on refjson trees. quick: V1xV2, V2xV1, V2-objects x V3-objects (depth-3 recursion through members that change type); patch and document also fed in spelling variants (members reversed, whitespace at every gap, \\u-escaped strings) on V1xV1 and on 6 documents x 128 'wide' patches (all objects over 3 names with values absent/null/1/{q:null}, at the root and one level down). thorough: V3xV3. " +
 			"states = distinct documents (inputs and results); non-trivial = distinct result documents"
 		if tier == "quick" {
 			runMergeEdges(ctx, "C02", false, v1, v2, mergeCfg{})
 			runMergeEdges(ctx, "C02", false, v2, v1, mergeCfg{})
 			runMergeEdges(ctx, "C02", false, onlyObjs(v2), onlyObjs(famV3()), mergeCfg{})
 			runMergeEdges(ctx, "C02", false, v1, v1, mergeCfg{variants: true})
+			// wide new objects (adjacent nulls), at the root and one level down, every spelling
+			wide := wideObjects()
+			var nested []*rj.Value
+			for _, w := range wide {
+				nested = append(nested, rj.NewObj(rj.Member{Name: "a", V: w}))
+			}
+			small := parseAll([]string{`{}`, `{"a":1}`, `1`, `{"a":{"x":1,"z":2}}`, `{"x":1,"y":2,"z":3}`, `[1]`})
+			runMergeEdges(ctx, "C02", false, small, append(wide, nested...), mergeCfg{variants: true})
 		} else {
+			wide := wideObjects()
+			var nested []*rj.Value
+			for _, w := range wide {
+				nested = append(nested, rj.NewObj(rj.Member{Name: "a", V: w}), rj.NewObj(rj.Member{Name: "b", V: rj.NewObj(rj.Member{Name: "a", V: w})}))
+			}
+			runMergeEdges(ctx, "C02", false, famV2(), append(wide, nested...), mergeCfg{variants: true})
 			v3 := famV3()
 			runMergeEdges(ctx, "C02", false, v3, v3, mergeCfg{})
 			runMergeEdges(ctx, "C02", false, v2, v2, mergeCfg{variants: true})
@@ -339,13 +362,14 @@ func init() {
 		runCreatePairs(ctx, "C03", false, v1, v1)
 	}, false)
 	registerMerge("C06", func(ctx *core.Ctx, tier string) {
-		ctx.Rep.Rule = "Equal(a,b) vs reference structural equality (numbers by literal; numerically-equal-but-differently-spelled pairs are DontCare) for all ordered pairs of V2 (quick) / V3 (thorough), each value also in reordered, whitespace-padded and \\u-escaped spellings; " +
+		ctx.Rep.Rule = "Equal(a,b) vs reference structural equality (numbers by literal; numerically-equal-but-differently-spelled pairs are DontCare) for all ordered pairs of V2 (quick) / V3 (thorough), each value also in reordered, whitespace-padded and \\u-escaped spellings; every JSON string escape (solidus, quote, backslash, b f n r t, uXXXX in both cases, surrogate pairs) in all spellings at the root, in arrays, as member value and as member name; " +
 			"agreement with an equivalence relation on the whole set gives reflexivity, symmetry and transitivity there; malformed inputs are added by bytex (see C04/C16 clauses in this check)"
 		vs := famV2()
 		if tier == "thorough" {
 			vs = famV3()
 		}
 		runEqualPairs(ctx, "C06", false, vs, true)
+		runEqualEscapes(ctx, "C06")
 		runEqualMalformed(ctx, "C06", tier)
 	}, false)
 	registerMerge("C07", func(ctx *core.Ctx, tier string) {
